@@ -172,6 +172,8 @@ _SIGS = {
     "shim_array_foreach_count": (c_int, [P, c_void_p, c_size_t]),
     "shim_big_sort": (c_int, [c_long, c_int, c_int, c_int, c_char_p, c_size_t]),
     "shim_array_ints": (c_long, [P, c_void_p, c_long]),
+    "shim_set_errno": (None, [c_int]), "shim_get_errno": (c_int, []),
+    "shim_get_pointer_errno": (P, [P, c_char_p, c_int, c_int]),
     "shim_members_named_by_value": (c_long, [P]),
 }
 
@@ -180,7 +182,10 @@ class Lib:
     """Thin wrapper: attribute access gives the typed C function."""
 
     def __init__(self, path):
-        self.dll = C.CDLL(path)
+        # use_errno: ctypes keeps a private errno that it swaps in before and out after EVERY foreign call, so the library sees
+        # errno exactly as a C program making the same sequence of calls would (what one call leaves behind, the next one
+        # inherits; the interpreter's own system calls in between cannot disturb it).  ctypes.set_errno() sets the start value.
+        self.dll = C.CDLL(path, use_errno=True)
         self.optional_missing = []
         for name, (res, args) in _SIGS.items():
             try:
